@@ -22,10 +22,21 @@ Proof. destruct l as [|e l]; cbn; tauto. Qed.
 Lemma inv_init t : Inv t (uinit t).
 Proof. split; cbn; auto. Qed.
 
+Lemma amend_chain orig s pre :
+  chain_undo (u_buf s) (u_undo s) orig ->
+  chain_undo (u_buf (amend s pre)) (u_undo (amend s pre)) orig.
+Proof.
+  intros H. unfold amend. destruct pre as [p|]; [|exact H].
+  destruct (u_undo s) as [|e l] eqn:E; [rewrite E; exact H|].
+  cbn [chain_undo u_buf u_undo e_new e_old] in *. tauto.
+Qed.
+
 Lemma inv_step orig s o : Inv orig s -> Inv orig (ustep s o).
 Proof.
-  intros [Hu Hr]. destruct o as [after ci| |]; cbn [ustep].
-  - split; [|exact I]. cbn [u_buf u_undo].
+  intros [Hu Hr]. destruct o as [pre after ci| |]; cbn [ustep].
+  - apply (amend_chain orig s pre) in Hu. clear Hr. revert Hu. generalize (amend s pre). clear s.
+    intros s Hu. unfold cmd_step.
+    split; [|exact I]. cbn [u_buf u_undo].
     set (undo1 := if top_merging (u_undo s) && negb ci then stop_merge (u_undo s) else u_undo s).
     assert (H1 : chain_undo (u_buf s) undo1 orig).
     { unfold undo1. destruct (top_merging (u_undo s) && negb ci); [now apply chain_stop|assumption]. }
@@ -62,9 +73,9 @@ Qed.
 (** [u] after a change that was not merged into an insert session gives back
     exactly the text before that change *)
 Theorem undo_after_change s t :
-  t <> u_buf s -> u_buf (ustep (ustep s (OCmd t false)) OUndo) = u_buf s.
+  t <> u_buf s -> u_buf (ustep (ustep s (OCmd None t false)) OUndo) = u_buf s.
 Proof.
-  intros Hne. cbn [ustep u_undo u_buf negb andb].
+  intros Hne. cbn [ustep amend cmd_step u_undo u_buf negb andb].
   destruct (text_eqb_spec (u_buf s) t) as [E|_]; [congruence|].
   rewrite andb_true_r.
   set (undo1 := if top_merging (u_undo s) then stop_merge (u_undo s) else u_undo s).
@@ -77,9 +88,9 @@ Qed.
 (** a whole insert session (consecutive character inserts) is undone at once *)
 Lemma session_step s e l t :
   u_undo s = e :: l -> e_merging e = true ->
-  exists e', u_undo (ustep s (OCmd t true)) = e' :: l /\ e_old e' = e_old e /\ e_merging e' = true.
+  exists e', u_undo (ustep s (OCmd None t true)) = e' :: l /\ e_old e' = e_old e /\ e_merging e' = true.
 Proof.
-  intros Hu Hm. cbn [ustep u_undo]. rewrite Hu. cbn [top_merging]. rewrite Hm. cbn [negb andb].
+  intros Hu Hm. cbn [ustep amend cmd_step u_undo]. rewrite Hu. cbn [top_merging]. rewrite Hm. cbn [negb andb].
   destruct (text_eqb (u_buf s) t).
   - cbn [start_merge]. eexists. repeat split; reflexivity.
   - unfold handle_edit. cbn [top_merging]. rewrite Hm. cbn [start_merge e_old e_new].
@@ -88,7 +99,7 @@ Qed.
 
 Lemma session_top ts : forall s e l,
   u_undo s = e :: l -> e_merging e = true ->
-  exists e', u_undo (fold_left (fun s t => ustep s (OCmd t true)) ts s) = e' :: l
+  exists e', u_undo (fold_left (fun s t => ustep s (OCmd None t true)) ts s) = e' :: l
              /\ e_old e' = e_old e /\ e_merging e' = true.
 Proof.
   induction ts as [|t ts IH]; intros s e l Hu Hm; cbn [fold_left].
@@ -100,19 +111,40 @@ Qed.
 
 Theorem undo_insert_session s t ts :
   top_merging (u_undo s) = false -> t <> u_buf s ->
-  u_buf (ustep (fold_left (fun s t => ustep s (OCmd t true)) ts (ustep s (OCmd t true))) OUndo)
+  u_buf (ustep (fold_left (fun s t => ustep s (OCmd None t true)) ts (ustep s (OCmd None t true))) OUndo)
   = u_buf s.
 Proof.
   intros Hm Hne.
-  assert (H1 : exists l, u_undo (ustep s (OCmd t true)) = mkEdit (u_buf s) t true :: l).
-  { cbn [ustep u_undo]. rewrite Hm. cbn [andb].
+  assert (H1 : exists l, u_undo (ustep s (OCmd None t true)) = mkEdit (u_buf s) t true :: l).
+  { cbn [ustep amend cmd_step u_undo]. rewrite Hm. cbn [andb].
     destruct (text_eqb_spec (u_buf s) t) as [E|_]; [congruence|].
     unfold handle_edit. rewrite Hm. cbn [start_merge e_old e_new]. eexists. reflexivity. }
   destruct H1 as [l H1].
   destruct (session_top ts _ _ _ H1 eq_refl) as (e' & Hu & Ho & Hmm).
-  set (s' := fold_left (fun s t => ustep s (OCmd t true)) ts (ustep s (OCmd t true))) in *.
+  set (s' := fold_left (fun s t => ustep s (OCmd None t true)) ts (ustep s (OCmd None t true))) in *.
   unfold ustep at 1. rewrite Hu. cbn [top_merging]. rewrite Hmm.
   cbn [stop_merge u_buf e_old]. exact Ho.
+Qed.
+
+(** a block insert: the typed text, then the copies [handle_block_insert] makes
+    when the session is left, are one change *)
+Theorem undo_block_insert s t p :
+  top_merging (u_undo s) = false -> t <> u_buf s ->
+  u_buf (ustep (ustep (ustep s (OCmd None t true)) (OCmd (Some p) p false)) OUndo) = u_buf s.
+Proof.
+  intros Hm Hne.
+  assert (H1 : exists l, u_undo (ustep s (OCmd None t true)) = mkEdit (u_buf s) t true :: l).
+  { cbn [ustep amend cmd_step u_undo]. rewrite Hm. cbn [andb].
+    destruct (text_eqb_spec (u_buf s) t) as [E|_]; [congruence|].
+    unfold handle_edit. rewrite Hm. cbn [start_merge e_old e_new]. eexists. reflexivity. }
+  destruct H1 as [l H1].
+  set (s1 := ustep s (OCmd None t true)) in *.
+  assert (H2 : amend s1 (Some p) = mkU p (mkEdit (u_buf s) p true :: l) (u_redo s1)).
+  { unfold amend. rewrite H1. reflexivity. }
+  cbn [ustep]. rewrite H2.
+  unfold cmd_step. cbn [u_undo u_buf top_merging e_merging negb andb stop_merge e_old e_new].
+  destruct (text_eqb_spec p p) as [_|N]; [|congruence].
+  cbn [top_merging e_merging stop_merge u_buf e_old]. reflexivity.
 Qed.
 
 (** enough [u]s return the original input *)
@@ -144,7 +176,11 @@ Proof.
 Qed.
 
 Definition cmd_texts (ops : list uop) : list text :=
-  flat_map (fun o => match o with OCmd t _ => [t] | _ => [] end) ops.
+  flat_map (fun o => match o with
+                     | OCmd (Some p) t _ => [t; p]
+                     | OCmd None t _ => [t]
+                     | _ => []
+                     end) ops.
 
 (** ** Undo and redo never produce a text that was not an earlier state. *)
 Definition eok (H : list text) (e : edit) : Prop := In (e_old e) H /\ In (e_new e) H.
@@ -163,35 +199,64 @@ Proof. destruct l as [|e l]; [auto|]. intros F; inversion F; subst. constructor;
 Lemma forall_start H l : Forall (eok H) l -> Forall (eok H) (start_merge l).
 Proof. destruct l as [|e l]; [auto|]. intros F; inversion F; subst. constructor; assumption. Qed.
 
-Lemma ok_step H s o :
-  ok H s -> ok (match o with OCmd t _ => t :: H | _ => H end) (ustep s o).
+Definition op_texts (o : uop) : list text :=
+  match o with
+  | OCmd (Some p) t _ => [t; p]
+  | OCmd None t _ => [t]
+  | _ => []
+  end.
+
+Lemma amend_ok H s pre :
+  ok H s -> ok (match pre with Some p => p :: H | None => H end) (amend s pre).
 Proof.
-  intros (A & B & C). destruct o as [after ci| |]; cbn [ustep].
-  - assert (Hi : incl H (after :: H)) by (intros x Hx; now right).
-    split; [now left|]. split; [|constructor]. cbn [u_undo].
-    set (undo1 := if top_merging (u_undo s) && negb ci then stop_merge (u_undo s) else u_undo s).
-    assert (F1 : Forall (eok (after :: H)) undo1).
-    { unfold undo1. destruct (top_merging (u_undo s) && negb ci); [apply forall_stop|];
-        (eapply Forall_impl; [|exact B]; intros e; now apply eok_mono). }
-    assert (F2 : Forall (eok (after :: H))
-                   (if text_eqb (u_buf s) after then undo1 else handle_edit undo1 (u_buf s) after)).
-    { destruct (text_eqb (u_buf s) after); [assumption|]. unfold handle_edit.
-      destruct undo1 as [|e l']; cbn [top_merging].
-      - constructor; [|constructor]. split; cbn; [right; exact A|now left].
-      - inversion F1 as [|? ? [Eo En] F']; subst.
-        destruct (e_merging e).
-        + constructor; [split; cbn; [exact Eo|now left]|assumption].
-        + constructor; [split; cbn; [right; exact A|now left]|].
-          constructor; [split; assumption|assumption]. }
-    destruct ci; [now apply forall_start|assumption].
-  - cbn [u_undo].
+  intros (A & B & C). unfold amend. destruct pre as [p|]; [|repeat split; assumption].
+  assert (Hi : incl H (p :: H)) by (intros x Hx; now right).
+  destruct (u_undo s) as [|e l] eqn:E.
+  - apply (ok_mono H); [exact Hi|]. repeat split; [assumption|rewrite E; constructor|assumption].
+  - inversion B as [|? ? [Eo En] F']; subst.
+    split; [now left|]. split; cbn [u_undo u_redo].
+    + constructor; [split; cbn; [right; exact Eo|now left]|].
+      eapply Forall_impl; [|exact F']. intros x; now apply eok_mono.
+    + eapply Forall_impl; [|exact C]. intros x; now apply eok_mono.
+Qed.
+
+Lemma cmd_step_ok H s after ci : ok H s -> ok (after :: H) (cmd_step s after ci).
+Proof.
+  intros (A & B & C). unfold cmd_step.
+  assert (Hi : incl H (after :: H)) by (intros x Hx; now right).
+  split; [now left|]. split; [|constructor]. cbn [u_undo].
+  set (undo1 := if top_merging (u_undo s) && negb ci then stop_merge (u_undo s) else u_undo s).
+  assert (F1 : Forall (eok (after :: H)) undo1).
+  { unfold undo1. destruct (top_merging (u_undo s) && negb ci); [apply forall_stop|];
+      (eapply Forall_impl; [|exact B]; intros e; now apply eok_mono). }
+  assert (F2 : Forall (eok (after :: H))
+                 (if text_eqb (u_buf s) after then undo1 else handle_edit undo1 (u_buf s) after)).
+  { destruct (text_eqb (u_buf s) after); [assumption|]. unfold handle_edit.
+    destruct undo1 as [|e l']; cbn [top_merging].
+    - constructor; [|constructor]. split; cbn; [right; exact A|now left].
+    - inversion F1 as [|? ? [Eo En] F']; subst.
+      destruct (e_merging e).
+      + constructor; [split; cbn; [exact Eo|now left]|assumption].
+      + constructor; [split; cbn; [right; exact A|now left]|].
+        constructor; [split; assumption|assumption]. }
+  destruct ci; [now apply forall_start|assumption].
+Qed.
+
+Lemma ok_step H s o :
+  ok H s -> ok (op_texts o ++ H) (ustep s o).
+Proof.
+  intros Hok. destruct o as [pre after ci| |]; cbn [ustep op_texts].
+  - apply (amend_ok H s pre) in Hok. apply (cmd_step_ok _ _ after ci) in Hok.
+    destruct pre as [p|]; exact Hok.
+  - destruct Hok as (A & B & C). cbn [u_undo app].
     set (undo1 := if top_merging (u_undo s) then stop_merge (u_undo s) else u_undo s).
     assert (F1 : Forall (eok H) undo1).
     { unfold undo1. destruct (top_merging (u_undo s)); [now apply forall_stop|assumption]. }
     destruct undo1 as [|e l']; [repeat split; assumption|].
     inversion F1 as [|? ? [Eo En] F']; subst.
     split; [exact Eo|]. split; [assumption|]. constructor; [split; assumption|assumption].
-  - set (undo1 := if top_merging (u_undo s) then stop_merge (u_undo s) else u_undo s).
+  - destruct Hok as (A & B & C). cbn [app].
+    set (undo1 := if top_merging (u_undo s) then stop_merge (u_undo s) else u_undo s).
     assert (F1 : Forall (eok H) undo1).
     { unfold undo1. destruct (top_merging (u_undo s)); [now apply forall_stop|assumption]. }
     destruct (u_redo s) as [|e l']; [repeat split; assumption|].
@@ -210,12 +275,11 @@ Proof.
   { clear ops. induction l as [|o ops' IH]; intros s H Hok; [exact Hok|].
     cbn [fold_left]. specialize (IH _ _ (ok_step H s o Hok)).
     eapply ok_mono; [|exact IH].
-    change (cmd_texts (o :: ops')) with ((match o with OCmd t _ => [t] | _ => [] end) ++ cmd_texts ops').
+    change (cmd_texts (o :: ops')) with (op_texts o ++ cmd_texts ops').
     rewrite rev_app_distr, <- app_assoc.
     intros x Hx. apply in_app_or in Hx as [Hx|Hx]; [apply in_or_app; now left|].
     apply in_or_app. right.
-    destruct o as [a c| |]; cbn [rev app]; [|assumption|assumption].
-    exact Hx. }
+    apply in_app_or in Hx as [Hx|Hx]; apply in_or_app; [left; now apply -> in_rev|now right]. }
   assert (H0 : ok [t] (uinit t)) by (repeat split; cbn; auto).
   destruct (G ops _ _ H0) as (A & _ & _).
   apply in_app_or in A as [A|A].
